@@ -36,6 +36,7 @@ static const char *METHODS[] = {"GET", "POST", "PUT", "DELETE", "HEAD", "OPTIONS
 //       (cfg gate=1: a middleware in front of the handler keeps the NextFunc it was given and calls it inline / from runNext / from a timer)
 //   seg <size> <dt_ms>                     segment sizes, used cyclically (only in the segmented delivery)
 //   mut <pos> <val>    junk <len> <seed>   cut <after_bytes>         (hostile plans)
+//   biglen <which>     (hostile plans) a request with a Content-Length of 19-22 digits (around 2^63, 2^64 and beyond), behind the stream
 //   tgt <which>        (hostile plans) a request whose target holds a broken percent escape (bytes >= 0x80, non-hex, cut off), in front of the stream
 void generate(sim::Rng &r, uint64_t seed, const std::string &tier, sim::Plan &p) {
   bool thorough = tier == "thorough";
@@ -80,6 +81,7 @@ void generate(sim::Rng &r, uint64_t seed, const std::string &tier, sim::Plan &p)
       unsigned x = (unsigned)r.below(100);
       static const long vals[] = {0, '\n', '\r', ' ', ':', '-', '9', 'x', 0x80, 0xff, '/', '?', '%', '&', '='};
       if (x < 12) { op.kind = "tgt"; op.a = {(long)r.below(16)}; }
+      else if (x < 20) { op.kind = "biglen"; op.a = {(long)r.below(8)}; }
       else if (x < 70) { op.kind = "mut"; op.a = {(long)r.below(100000), vals[r.below(15)]}; }
       else if (x < 90) { op.kind = "junk"; op.a = {r.range(1, 300), (long)(r.next() & 0xffff)}; }
       else { op.kind = "cut"; op.a = {(long)r.below(5000)}; }
@@ -457,6 +459,12 @@ void execute(const sim::Plan &plan) {
                                         "/a%4\xff", "/%\x80", "/a?k=%", "/a?k=%1", "/a%%%", "/a?x=%f\xff&y=%\xff" "f"};
         stream = std::string("GET ") + T[((op.arg(0) % 16) + 16) % 16] + " HTTP/1.1\r\nContent-Length: 0\r\n\r\n" + stream;
         sim::probe("hostile_targets");
+      }
+      else if (op.kind == "biglen") {
+        // a request whose Content-Length is a number around and beyond what size_t / unsigned long long hold, behind the stream
+        static const char *const V[] = {"99999999999999999999", "18446744073709551616", "18446744073709551615", "9223372036854775808", "100000000000000000000", "000000000000000000001", "1844674407370955161599", "-1"};
+        stream += std::string("POST /big HTTP/1.1\r\nContent-Length: ") + V[((op.arg(0) % 8) + 8) % 8] + "\r\n\r\nxyz";
+        sim::probe("huge_content_length");
       }
       else if (op.kind == "mut" && !stream.empty()) stream[(size_t)(std::max(0L, op.arg(0)) % (long)stream.size())] = (char)(op.arg(1) & 0xff);
       else if (op.kind == "junk") { sim::Rng jr((uint64_t)op.arg(1) + 77); long n = std::max(1L, std::min(2000L, op.arg(0))); for (long i = 0; i < n; ++i) stream.push_back((char)jr.below(256)); }
